@@ -10,7 +10,7 @@ import fw
 from sched import disp_oracle as do
 from sched import disp_prop as dp
 
-LEAN_TARGETS = ["RxProofs.C26", "RxProofs.Lemmas.DispSadAsIs"]
+LEAN_TARGETS = ["RxProofs.C26", "RxProofs.C26Heap", "RxProofs.Lemmas.DispSadAsIs"]
 DRIVER = "drv_disp"
 DRIVER_ROOT = "Disp"
 PROCS = 1  # histories take microseconds; a process pool costs more than it saves
@@ -25,6 +25,17 @@ THEOREMS = [
     "C26.assign_dispose_takes_effect",
     "C26.sad_second_assignment_rejected",
     "C26.sad_set_when_assigned_raises",
+    # nested containers under threads (Composite holding a Serial holding leaves)
+    "C26.nested_leaf_disposed_exactly_once",
+    "C26.nested_never_twice",
+    # refinement: the heap model of C02/C03 restricted to one container is the class semantics
+    "C26Heap.composite_refines_heap",
+    "C26Heap.assign_refines_heap",
+    "C26Heap.serial_refines_heap",
+    "C26Heap.multi_refines_heap",
+    "C26Heap.single_refines_heap",
+    "C26Heap.refcount_refines_heap",
+    "C26Heap.heapRel_flags",
     # documentation of the defect of the unfixed class (decide'd counter-examples on the as-written model)
     "Disp.SadAsIs.sad_falsy_leak",
     "Disp.SadAsIs.sad_falsy_second_assignment_accepted",
@@ -86,6 +97,17 @@ def cases(rng, tier):
     for cls in CLASSES:
         for _ in range(n):
             yield gen_history(rng, tier, cls)
+    for _ in range(fw.tier_scale(tier, 400, 4000)):
+        ops = []
+        nxt = 0
+        for _ in range(rng.choice([0, 1, 2, 3, 4, 6, 8])):
+            k = rng.choice(["setS"] * 4 + ["dispC", "dispC", "removeS", "dispS"])
+            if k == "setS":
+                ops.append(["setS", nxt % NITEMS])
+                nxt += 1
+            else:
+                ops.append([k])
+        yield {"op": "history", "cls": "nest", "items": NITEMS, "falsy": [0], "threads": [ops]}
     # the defect shapes of DESIGN §6 #5, always present
     yield {"op": "history", "cls": "sad", "items": 3, "falsy": [0], "threads": [[["dispose"], ["set", 0]]]}
     yield {"op": "history", "cls": "sad", "items": 3, "falsy": [0], "threads": [[["set", 0], ["set", 1], ["dispose"]]]}
@@ -107,7 +129,11 @@ def oracle(case, out):
     if case.get("op") == "threads":
         if out.get("error"):
             return f"execution failed: {out['error']}"
-        return do.c26_threads(case["scenario"], out["trace"], out["final"], observers=not case.get("lines"))
+        if case["scenario"]["cls"] == "nest":
+            return do.nest_threads(case["scenario"], out["trace"], out["final"])
+        return do.c26_threads(case["scenario"], out["trace"], out["final"], observers=True)
+    if case["cls"] == "nest":
+        return do.nest_history(case, out)
     return do.c26_history(case, out)
 
 
@@ -119,6 +145,8 @@ def nontrivial(case, out):
     if case.get("op") != "history":
         return True
     kinds = {op[0] for op in case["threads"][0]}
+    if case["cls"] == "nest":
+        return len(kinds) >= 2 and bool(out) and sum(out[-1][1]["cnt"]) >= 1
     return len(kinds) >= 2 and bool(out) and sum(out[-1][1]["cnt"]) >= 1
 
 
@@ -127,6 +155,8 @@ def bucket(case, out):
         return
     cls = case["cls"]
     yield cls
+    if cls == "nest":
+        return
     ops = case["threads"][0]
     disposed = False
     for op, (res, obs) in zip(ops, out):
@@ -187,6 +217,21 @@ SCENARIOS = [
 ]
 
 
+NEST = [
+    S("nest", [[["dispC"]], [["setS", 1]]], setup=[["setS", 0]]),
+    S("nest", [[["dispC"]], [["setS", 0], ["setS", 1]], [["dispS"]]]),
+    S("nest", [[["dispC"]], [["removeS"]], [["setS", 1]]], setup=[["setS", 0]]),
+    S("nest", [[["dispC"]], [["dispC"]], [["setS", 1], ["setS", 2]]], setup=[["setS", 0]]),
+    S("nest", [[["removeS"]], [["removeS"], ["setS", 1]], [["dispS"]]], setup=[["setS", 0]]),
+]
+
+
+def _oracle_threads(sc, tr, fin, observers=True):
+    if sc["cls"] == "nest":
+        return do.nest_threads(sc, tr, fin)
+    return do.c26_threads(sc, tr, fin, observers=observers)
+
+
 def gen_scenario(rng):
     cls = rng.choice(CLASSES)
     nt = rng.choice([2, 2, 3])
@@ -212,11 +257,12 @@ def gen_scenario(rng):
 
 
 def extra(rng, tier):
-    scs = SCENARIOS + [gen_scenario(rng) for _ in range(fw.tier_scale(tier, 8, 40))]
-    parts = [("", dp.thread_check(scs, do.c26_threads, tier, accept=True, classify=classify))]
+    scs = SCENARIOS + NEST + [gen_scenario(rng) for _ in range(fw.tier_scale(tier, 8, 40))]
+    parts = [("", dp.thread_check(scs, _oracle_threads, tier, accept=True, classify=classify))]
     if tier == "thorough":
-        # line-granular exploration (sys.settrace, preemption also inside lock blocks): oracle only
-        parts.append(("lines", dp.thread_check(SCENARIOS, lambda sc, tr, fin: do.c26_threads(sc, tr, fin, observers=False), tier,
+        # line-granular exploration (sys.settrace, preemption also inside lock blocks): oracle only; observer
+        # results are compared too: a read inside another thread's open lock block admits the value before or after it
+        parts.append(("lines", dp.thread_check(SCENARIOS + NEST, lambda sc, tr, fin: _oracle_threads(sc, tr, fin, observers=True), tier,
                                               accept=False, lines=True, bound=2, budget_s=120)))
     return dp.merge_extra(parts)
 
@@ -228,7 +274,11 @@ LEVEL_TEXT = ("Lean theorems (no bound on threads, program lengths or schedules)
               "held by a live container; a disposed container holds nothing; at most one assignment is ever stored in a "
               "SingleAssignmentDisposable and a second one raises. Tied to the code by differential call histories and by "
               "enumerated <=2/3-preemption schedules of 2-3 real threads whose event sequences are replayed in the model.")
+LEVEL_TEXT += (" Also proved: a Composite holding a Serial holding leaves, disposed/removed/assigned from any number of threads, disposes "
+               "every leaf exactly once (nested model Disp.nStep, also replayed against real nested objects); and C26Heap: on heaps "
+               "leaves+container (and underlying+RefCount+dependents) the C02/C03 heap model Pipe.apply/settle yields exactly the "
+               "flags and rejections of these class models run to completion (refinement, any history).")
 LEVEL_NOTE = ("SingleAssignmentDisposable is modelled WITH fixes/C26_sad_lock_and_none.patch; the as-written class violates the "
               "property (decide'd counter-examples in RxProofs/Lemmas/DispSadAsIs.lean, replayed on the real class). Items are leaf "
-              "disposables (a static falsy flag); nesting of containers (DispGraph) is not modelled here. Atomicity of lock blocks "
+              "disposables (a static falsy flag); nesting is modelled for Composite>Serial>leaf only (general nesting: C02's heap). Atomicity of lock blocks "
               "is assumed (validated by the controller), not proved.")
